@@ -143,3 +143,26 @@ func VerifC13Panic() {
 	vassert(strings.Contains(rerr.Error(), "node path: ["+fail+"]"), "error message names the panicking node")
 	vquiesce()
 }
+
+// node path through deeper nesting: L1 > L2 > ... > leaf
+func VerifC13DeepPath() {
+	ctx := context.Background()
+	depth := vrange("depth", 2, 4)
+	paradigm := vchoose("paradigm", 2)
+	var cur AnyGraph = c13Chain("b", c13Sentinel, false)
+	want := "b"
+	for d := 1; d < depth; d++ {
+		outer := NewGraph[map[string]any, map[string]any]()
+		key := []string{"", "L3", "L2", "L1"}[depth-d]
+		_ = outer.AddGraphNode(key, cur)
+		_ = outer.AddEdge(START, key)
+		_ = outer.AddEdge(key, END)
+		cur = outer
+		want = key + ", " + want
+	}
+	r, err := cur.(*Graph[map[string]any, map[string]any]).Compile(ctx)
+	vassert(err == nil, "nested graphs compile")
+	rerr := c13Run(r, paradigm, map[string]any{"in": vsymInt("x")})
+	vassert(rerr != nil && errors.Is(rerr, c13Sentinel), "the original error is recoverable through every nesting level")
+	vassert(strings.Contains(rerr.Error(), "node path: ["+want+"]"), "the error names the full failing node path through nested graphs: "+want)
+}
